@@ -301,3 +301,38 @@ def stale_read(c):
     c.require("len(sent('link.send_packet')) == 1")
     deliver(c, cf, 1, "pack('<HBH', id0, 0, old)")      # duplicate of an earlier read reply, old value
     c.ensure('stale-read-reply-does-not-answer-the-write', "upd.wait_lock.locked() and 'g' not in param.values")
+
+
+@contract('C04', 'reply-before-send-returns', [PRM + ':_ParamUpdater.run', PRM + ':_ParamUpdater._new_packet_cb', PRM + ':Param._param_updated'],
+          clause='each request is answered before the next is sent, whatever the timing: a reply that the dispatcher thread processes before the '
+                 'transmitting call has even returned to the updater thread is still attributed to the request and releases it',
+          bounded='one write request; the reply is dispatched synchronously from inside link.send_packet (the earliest possible schedule)')
+def reply_before_send_returns(c):
+    c.int('ident', 0, 65535), c.int('value', 0, 65535), c.int('dev', 0, 65535)
+    cf, param, upd = setup(c, [(c.get('ident'), 0x09, 'g', 'a')])
+    done = []
+
+    def send(_i, args, _k):
+        if done:
+            return None
+        done.append(1)
+        # the device answers at once and the dispatcher thread handles the answer before send_packet returns
+        c.snapshot('rx_now', "pack('<HH', ident, dev)")
+        pk = c.new(STK + ':CRTPPacket', (2 << 4) | 2, c.get('rx_now'))
+        pending = [pk]
+        stop = c.raiser('StopLoop')
+
+        def rx(*_a):
+            if pending:
+                return pending.pop(0)
+            return stop()
+        link = c.getfield(cf, 'link')
+        c.set(link, 'receive_packet', c.ext('link_rx', returns={'()': rx}))
+        c.invoke_catch((c.getfield(cf, 'incoming'), 'run'))
+        return None
+    c.set(cf, 'link', c.ext('link', attrs={'needs_resending': False}, returns={'send_packet': send}))
+    c.call((param, 'set_value'), 'g.a', c.get('value'))
+    c.require('raised is None')
+    run_updater(c, upd)
+    c.ensure('request-released-by-its-early-reply', 'not upd.wait_lock.locked() and upd.request_queue.qsize() == 0')
+    c.ensure('cache-holds-device-value', "param.values['g']['a'] == str(dev)")
